@@ -1,5 +1,6 @@
 mod canon;
 mod mc;
+mod preds;
 mod script;
 mod sim;
 mod store;
